@@ -1261,7 +1261,8 @@ class StatemachineContext:
                         used_temporaries[obj._root] = True
                 return obj
 
-            state.visit_objects(check)
+            # also visit temporaries used as offsets of references
+            state.visit_referenced_objects(check)
 
     def _fix_signal_alias(self):
         for state in self._states:
